@@ -604,23 +604,27 @@ class Prop:
         return cases
 
     def real_time_cases(self, tier):
-        """the same on real timer tasks whose negotiated time (restart time 1 s, LLGR stale time 1 s / 2 s) really runs out:
+        """the same on real timer tasks whose negotiated time (restart time 2 s, LLGR stale time 2 s / 3 s) really runs out:
         'rtimer' / 'ltimer' wait for the expiry instead of firing the timer through its sender"""
         a, b = FAMS[0], FAMS[1]
         F = (a, b)
         cases = []
-        kinds = [('gr_only', (a, b), None), ('gr_llgr', (a, b), ((a, 1), (b, 2))), ('gr_llgr_one', (a, b), ((a, 1),)), ('llgr_only', None, ((a, 1), (b, 2)))]
+        # (2 s / 3 s rather than the shortest possible times: a reconnect that has to beat a timer keeps a
+        # margin of about two seconds on a loaded machine)
+        kinds = [('gr_only', (a, b), None), ('gr_llgr', (a, b), ((a, 2), (b, 3))), ('gr_llgr_one', (a, b), ((a, 2),)), ('llgr_only', None, ((a, 2), (b, 3)))]
         # restart time 0 is a legal value of the 12-bit field: the restart timer then runs out at once
-        kinds += [('gr_only_restart_time_0', (a, b), None), ('gr_llgr_restart_time_0', (a, b), ((a, 1), (b, 2)))]
+        kinds += [('gr_only_restart_time_0', (a, b), None), ('gr_llgr_restart_time_0', (a, b), ((a, 2), (b, 3)))]
         for kname, grf, ll in kinds:
-            gr = None if grf is None else (grf, 0 if kname.endswith('restart_time_0') else 1, False)
+            gr = None if grf is None else (grf, 0 if kname.endswith('restart_time_0') else 2, False)
             up = ('up', F, gr, ll, default_caps(gr, ll))
             body = [up, ('ann', a, 0, False, False), ('ann', b, 1, False, False), ('eor', a), ('eor', b), ('down', 0)]
             expire = [('rtimer',), ('ltimer', a), ('ltimer', b)]
             variants = [('expiry_expiry', body + expire + body + expire)]
             if tier != 'quick' or kname in ('gr_llgr', 'llgr_only'):
                 variants.append(('expiry_expiry_expiry', body + expire + body + expire + body + expire))
-            if tier != 'quick' or kname == 'gr_llgr':
+            # (with restart time 0 there is no window in which the peer could come back before the
+            # restart timer: only the expiry variants make sense)
+            if (tier != 'quick' or kname == 'gr_llgr') and not kname.endswith('restart_time_0'):
                 variants.append(('eor_then_expiry', body + body + expire + body + expire))
                 variants.append(('partial_reconnect_expiry', body + [('rtimer',), ('ltimer', a)] + body + expire))
             for vname, evs in variants:
@@ -731,7 +735,13 @@ class Prop:
             return obs
         if case['kind'] == 'gr':
             return [[[[o[0], sorted(o[1])] if o[0] in (2, 5) else o for o in outs], b] for outs, b in obs]
-        return [[a, b, sorted(lt), sorted(rs), ng, sorted(dead)] for a, b, lt, rs, ng, dead in obs]
+        out = [[a, b, sorted(lt), sorted(rs), ng, sorted(dead)] for a, b, lt, rs, ng, dead in obs]
+        if is_rt0(case):
+            # restart time 0: the timer runs out the moment the session drops, so whether the observation
+            # taken right after the drop still shows the retained routes is a race; that one observation is
+            # not compared (the next event waits for the expiry, after which both sides must agree)
+            out = [('not-compared',) if e[0] == 'down' else o for e, o in zip(case['evs'], out)]
+        return out
 
     # ---- Spec oracle (python mirror of Spec/GrSpec.v): judges the implementation's observations
     def oracle(self, c, obs):
@@ -748,7 +758,7 @@ class Prop:
                     c['code'], c['sub'], c['nbit'], obs)
         if c['kind'] == 'gr':
             return oracle_gr(c, obs)
-        return oracle_h(c, obs)
+        return oracle_rt0(c, obs) if is_rt0(c) else oracle_h(c, obs)
 
     def in_known_class(self, kf, c, obs, why):
         if c['kind'] != 'h':
@@ -801,6 +811,27 @@ def oracle_gr(c, obs):
         restarting = bool(b)
     return None
 
+
+def is_rt0(c):
+    return c.get('kind') == 'h' and c.get('real') and any(str(x).endswith('restart_time_0') for x in c.get('cls', []))
+
+def oracle_rt0(c, obs):
+    """Real-timer histories with a negotiated restart time of 0: the observation right after the drop
+    races the timer and is not judged; "removed no later than that timer's expiry" is judged at the
+    events that wait for the expiry."""
+    for k, (e, o) in enumerate(zip(c['evs'], obs)):
+        restarting, rt, lts, routes = o[:4]
+        if e[0] == 'rtimer':
+            for r in routes:
+                if r[0] not in lts:
+                    return 'step %d: stale route of family %d outlives the restart timer (restart time 0)' % (k, r[0])
+            if restarting and not lts:
+                return 'step %d: helper mode still on after the restart timer (restart time 0) ran out' % k
+        elif e[0] == 'ltimer':
+            for r in routes:
+                if r[0] == e[1]:
+                    return 'step %d: LLGR-stale route of family %d outlives its LLGR timer' % (k, e[1])
+    return None
 
 def oracle_h(c, obs):
     """Property text, per step, on the observed (helper flag, restart timer armed, LLGR timers armed, routes)."""
